@@ -436,9 +436,26 @@ pub fn verif_root() -> String {
     std::env::var("VERIF_ROOT").unwrap_or_else(|_| "/verif".to_string())
 }
 
+/// Execute a scenario the way a replay does: its prelude first (same thread, not judged),
+/// then the scenario itself.
+pub fn exec(check: &dyn Check, sc: &Scenario, st: &mut Stats) -> Vec<Violation> {
+    for p in &sc.prelude {
+        let mut scratch = Stats::default();
+        let _ = check.execute(p, &mut scratch);
+    }
+    check.execute(sc, st)
+}
+
 pub fn write_replay(id: &str, sc: &Scenario, v: &Violation, master: u64, index: u64) -> String {
     let dir = format!("{}/replays/{}", verif_root(), id);
     let _ = std::fs::create_dir_all(&dir);
+    let digest = fnv(format!("{}{}", v.signature(), sc.to_json()).as_bytes());
+    let path = format!("{}/{:016x}.json", dir, digest);
+    write_replay_to(&path, id, sc, v, master, index);
+    path
+}
+
+pub fn write_replay_to(path: &str, id: &str, sc: &Scenario, v: &Violation, master: u64, index: u64) {
     let body = json!({
         "property": id,
         "clause": v.clause,
@@ -446,13 +463,149 @@ pub fn write_replay(id: &str, sc: &Scenario, v: &Violation, master: u64, index: 
         "detail": v.detail,
         "seed": master,
         "run_index": index,
+        "order_dependent": if sc.prelude.is_empty() { Value::Null } else { json!(format!("the violation manifests only after the {} scenario(s) under scenario.prelude have been executed, in that order, on the same thread: the code under test carries state from one call to the next", sc.prelude.len())) },
         "scenario": sc.to_json(),
     });
     let text = serde_json::to_string_pretty(&body).unwrap();
-    let digest = fnv(format!("{}{}", v.signature(), sc.to_json()).as_bytes());
-    let path = format!("{}/{:016x}.json", dir, digest);
-    std::fs::write(&path, text).expect("cannot write replay file");
-    path
+    std::fs::write(path, text).expect("cannot write replay file");
+}
+
+/// Does this scenario produce a violation of the given clause when replayed in a fresh process?
+pub fn reproduces_fresh(id: &str, sc: &Scenario, v: &Violation, master: u64, index: u64) -> bool {
+    static N: AtomicU64 = AtomicU64::new(0);
+    let dir = format!("{}/replays/{}", verif_root(), id);
+    let _ = std::fs::create_dir_all(&dir);
+    let path = format!(
+        "{}/.tmp-{}-{}.json",
+        dir,
+        std::process::id(),
+        N.fetch_add(1, Ordering::Relaxed)
+    );
+    write_replay_to(&path, id, sc, v, master, index);
+    let exe = std::env::current_exe().expect("current_exe");
+    let out = std::process::Command::new(exe)
+        .arg("replay")
+        .arg(&path)
+        .arg("--quiet")
+        .env("VERIF_NO_SUPERVISOR", "1")
+        .output();
+    let _ = std::fs::remove_file(&path);
+    matches!(&out, Ok(o) if o.status.code() == Some(1))
+}
+
+/// A violation seen in the batch does not reproduce when its scenario is replayed alone in a
+/// fresh process: the code under test remembers something between calls. Rebuild a history that
+/// does reproduce it — the runs that preceded it, executed in order on one thread — and
+/// minimise that history, every candidate being judged in a fresh process.
+pub fn order_dependent_session(
+    check: &dyn Check,
+    master: u64,
+    tier: Tier,
+    index: u64,
+    v: &Violation,
+    budget_s: u64,
+) -> Option<Scenario> {
+    let id = check.id();
+    let start = Instant::now();
+    let main = scenario_for(check, master, index, tier);
+    let fresh = |sc: &Scenario| reproduces_fresh(id, sc, v, master, index);
+    let mut session: Option<Scenario> = None;
+    if fresh(&main) {
+        session = Some(main.clone());
+    } else {
+        // the runs of the same 64-run chunk ran on the same worker thread right before it
+        let mut ks: Vec<u64> = vec![1, 2, 4];
+        if index % 64 > 0 {
+            ks.push(index % 64);
+        }
+        ks.extend([64, 128, 256, 512]);
+        for k in ks {
+            let lo = index.saturating_sub(k);
+            if lo == index {
+                continue;
+            }
+            let mut s = main.clone();
+            s.prelude = (lo..index).map(|i| scenario_for(check, master, i, tier)).collect();
+            if fresh(&s) {
+                session = Some(s);
+                break;
+            }
+            if lo == 0 || start.elapsed().as_secs() >= budget_s {
+                break;
+            }
+        }
+    }
+    let mut best = session?;
+    let over = |start: &Instant| start.elapsed().as_secs() >= budget_s;
+    // keep only the last n scenarios of the prelude
+    let mut n = 0usize;
+    while n < best.prelude.len() && !over(&start) {
+        let mut c = best.clone();
+        c.prelude = best.prelude[best.prelude.len() - n..].to_vec();
+        if fresh(&c) {
+            best = c;
+            break;
+        }
+        n = if n == 0 { 1 } else { n * 2 };
+    }
+    // remove chunks of the prelude (ddmin)
+    let mut chunk = (best.prelude.len() / 2).max(1);
+    while !best.prelude.is_empty() && !over(&start) {
+        let mut i = 0;
+        while i < best.prelude.len() && !over(&start) {
+            let mut c = best.clone();
+            let hi = (i + chunk).min(c.prelude.len());
+            c.prelude.drain(i..hi);
+            if fresh(&c) {
+                best = c;
+            } else {
+                i += chunk;
+            }
+        }
+        if chunk == 1 {
+            break;
+        }
+        chunk /= 2;
+    }
+    // shrink the scenarios themselves (the judged one, then each prelude entry)
+    let mut spawns = 0u32;
+    'outer: loop {
+        if over(&start) || spawns > 600 {
+            break;
+        }
+        for slot in 0..=best.prelude.len() {
+            let cur = if slot == 0 {
+                let mut m = best.clone();
+                m.prelude.clear();
+                m
+            } else {
+                best.prelude[slot - 1].clone()
+            };
+            for cand in candidates(check, &cur) {
+                if weight(&cand) >= weight(&cur) {
+                    continue;
+                }
+                if over(&start) || spawns > 600 {
+                    break 'outer;
+                }
+                let mut c = best.clone();
+                if slot == 0 {
+                    let pre = std::mem::take(&mut c.prelude);
+                    c = cand;
+                    c.prelude = pre;
+                } else {
+                    c.prelude[slot - 1] = cand;
+                }
+                spawns += 1;
+                if fresh(&c) {
+                    best = c;
+                    continue 'outer;
+                }
+            }
+        }
+        break;
+    }
+    Some(best)
 }
 
 pub struct Replay {
@@ -841,8 +994,7 @@ pub fn minimise(
     if let Some(f) = check.focus(sc, v) {
         let mut st = Stats::default();
         execs += 1;
-        if let Some(found) = check
-            .execute(&f, &mut st)
+        if let Some(found) = exec(check, &f, &mut st)
             .into_iter()
             .find(|x| x.class() == class)
         {
@@ -862,7 +1014,7 @@ pub fn minimise(
             }
             execs += 1;
             let mut st = Stats::default();
-            let vs = check.execute(&c, &mut st);
+            let vs = exec(check, &c, &mut st);
             if let Some(found) = vs.into_iter().find(|x| x.class() == class) {
                 best = c;
                 best_v = found;
@@ -999,6 +1151,8 @@ pub fn run_check(check: &dyn Check, tier: Tier) -> Outcome {
     }
     // minimisation budget: 20 s per group, 150 s for the whole report
     let report_start = Instant::now();
+    let mut order_dependent_reported = 0u32;
+    let mut order_dependent_skipped = 0u32;
     for (index, v, count) in groups.iter().take(MAX_GROUPS) {
         let sc = scenario_for(check, master, *index, tier);
         let left = 150u64.saturating_sub(report_start.elapsed().as_secs());
@@ -1007,7 +1161,9 @@ pub fn run_check(check: &dyn Check, tier: Tier) -> Outcome {
         if !reported.insert(sig.clone()) {
             continue;
         }
-        let path = write_replay(check.id(), &min_sc, &min_v, master, *index);
+        let mut min_sc = min_sc;
+        let mut min_v = min_v;
+        let mut path = write_replay(check.id(), &min_sc, &min_v, master, *index);
         // the replay must reproduce in a fresh process
         let exe = std::env::current_exe().expect("current_exe");
         let out = std::process::Command::new(exe)
@@ -1017,13 +1173,47 @@ pub fn run_check(check: &dyn Check, tier: Tier) -> Outcome {
             .output();
         let reproduced = matches!(&out, Ok(o) if o.status.code() == Some(1));
         if !reproduced {
-            eprintln!(
-                "pppsim: harness error: replay {} did not reproduce in a fresh process ({:?})",
-                path,
-                out.map(|o| o.status.code())
-            );
-            std::process::exit(2);
+            // Not a harness error yet: if the code under test remembers something between calls,
+            // a run's outcome depends on the runs before it. Rebuild and minimise that history.
+            let _ = std::fs::remove_file(&path);
+            if order_dependent_reported >= 3 {
+                order_dependent_skipped += 1;
+                continue;
+            }
+            let left = 240u64.saturating_sub(report_start.elapsed().as_secs()).max(20);
+            match order_dependent_session(check, master, tier, *index, v, left.min(90)) {
+                Some(session) => {
+                    order_dependent_reported += 1;
+                    min_sc = session;
+                    min_v = v.clone();
+                    min_v.detail = format!(
+                        "{} [order-dependent: replaying this scenario alone in a fresh process passes; it fails after the {} scenario(s) recorded under scenario.prelude have run on the same thread]",
+                        v.detail,
+                        min_sc.prelude.len()
+                    );
+                    let sig2 = min_v.signature();
+                    reported.insert(sig2);
+                    path = write_replay(check.id(), &min_sc, &min_v, master, *index);
+                    if !reproduces_fresh(check.id(), &min_sc, &min_v, master, *index) {
+                        eprintln!(
+                            "pppsim: harness error: order-dependent replay {} did not reproduce in a fresh process",
+                            path
+                        );
+                        std::process::exit(2);
+                    }
+                }
+                None => {
+                    eprintln!(
+                        "pppsim: harness error: the violation of run {} ({}) reproduces neither alone nor after the runs that preceded it, in a fresh process ({:?})",
+                        index,
+                        v.signature(),
+                        out.map(|o| o.status.code())
+                    );
+                    std::process::exit(2);
+                }
+            }
         }
+        let sig = min_v.signature();
         let is_known = known
             .iter()
             .find(|k| k.status == "open" && k.property == check.id() && k.signature == sig);
@@ -1049,6 +1239,13 @@ pub fn run_check(check: &dyn Check, tier: Tier) -> Outcome {
                 println!("VIOLATION property={} replay={}", check.id(), path);
             }
         }
+    }
+
+    if order_dependent_skipped > 0 {
+        println!(
+            "pppsim: {} more violation group(s) that do not reproduce alone were not minimised (order-dependent, as the ones reported)",
+            order_dependent_skipped
+        );
     }
 
     // probes
